@@ -130,12 +130,18 @@ func mkMapFn(mode int) xpath.PfxMapFn {
 	}
 }
 
+// debugExprs (VERIF_C06_DEBUG=1) lists every expression handed to a constructor, for measuring what the generator reaches.
+var debugExprs = os.Getenv("VERIF_C06_DEBUG") != ""
+
 func compileOp(o op) (m *xpath.Machine, out outcome) {
 	defer func() {
 		if r := recover(); r != nil {
 			out.text = fmt.Sprintf("PANIC %v", r)
 		}
 	}()
+	if debugExprs {
+		fmt.Fprintf(os.Stderr, "EXPR %s %q\n", grammars[o.gram].name, o.expr)
+	}
 	m, err := grammars[o.gram].build(o.expr, mkMapFn(o.mapMode))
 	if err != nil {
 		return nil, outcome{text: "ERR " + err.Error()}
@@ -289,6 +295,15 @@ func (w world) RunCase(t *tape.Tape, st *super.Stats) *super.Violation {
 	tree := faulttree.Generate(t, "T")
 	treeSeg := t.Recorded()[seg0:]
 	g := &genxpath.Gen{T: t, Tree: tree, Ctx: tree.Nodes[t.Draw(len(tree.Nodes))]}
+	if t.Coin() {
+		// a focus function: shared machines, private machines and concurrent compilations (valid ones and
+		// ones with a wrong number of arguments) meet on one entry of the function table. Shared machine 0
+		// is a well-typed literal call of it (a run gets as far as the function), and the clients compile
+		// calls of it with every number of arguments. (These cases have their first lookup before the clients start.)
+		g.Focus = 1 + t.Draw(genxpath.NumFuncs())
+		first = false
+		inc("reach:case_with_focus_function")
+	}
 	g.NoFuncs = first // keep the process's first function lookup for the concurrent phase
 	nShared := 1 + t.Draw(3)
 	var sharedExpr []string
@@ -296,6 +311,12 @@ func (w world) RunCase(t *tape.Tape, st *super.Stats) *super.Violation {
 	var sharedList []string
 	for i := 0; i < nShared; i++ {
 		e := g.Expr(1 + t.Draw(3))
+		if wt := g.WellTyped(); i == 0 && wt != "" {
+			e = wt
+			if t.Rare(3) {
+				e = wt + " = " + g.Expr(1)
+			}
+		}
 		m, _ := compileOp(op{gram: 0, expr: e})
 		sharedExpr = append(sharedExpr, e)
 		shared = append(shared, m)
@@ -345,7 +366,14 @@ func (w world) RunCase(t *tape.Tape, st *super.Stats) *super.Violation {
 			switch t.Pick(w0, w1, w2) {
 			case 0:
 				o = op{kind: 0, gram: t.Pick(5, 2, 1, 2, 1), mapMode: t.Pick(3, 3, 1)}
-				switch t.Pick(6, 2, 1) {
+				wv := 0
+				if g.Focus > 0 {
+					wv = 3
+				}
+				switch t.Pick(6, 2, 1, wv) {
+				case 3:
+					o.expr = g.ArityVariant(t.Draw(6))
+					o.gram = 0
 				case 0:
 					o.expr = g.Expr(1 + t.Draw(4))
 				case 1:
@@ -465,6 +493,44 @@ func (w world) RunCase(t *tape.Tape, st *super.Stats) *super.Violation {
 	if stmtYields {
 		s.MaxSteps = 200000
 		inc("reach:statement_level_yields")
+	}
+	// isolated(): every operation of every client done alone: fresh compile, fresh copy of the tree,
+	// single goroutine. Done after the concurrent phase (the reference for the clients' results) and,
+	// when the case does not keep the process's first function lookup for the concurrent phase, also
+	// before it: the two must agree (a result that depends on the process's history is not "the result
+	// it would return in isolation").
+	isolated := func() [][]outcome {
+		tree2 := faulttree.Generate(tape.Replay(treeSeg), "T")
+		out := make([][]outcome, len(progs))
+		for c, p := range progs {
+			out[c] = make([]outcome, len(p))
+			var ownExpr *op
+			for i, o := range p {
+				switch o.kind {
+				case 0:
+					oc := o
+					ownExpr = &oc
+					_, out[c][i] = compileOp(o)
+				case 1:
+					m, _ := compileOp(op{gram: 0, expr: sharedExpr[o.shared]})
+					out[c][i] = runOp(m, tree2, o, fmt.Sprintf("c%do%d", c, i), false)
+				case 2:
+					var m *xpath.Machine
+					if ownExpr != nil {
+						m, _ = compileOp(*ownExpr)
+					}
+					out[c][i] = runOp(m, tree2, o, fmt.Sprintf("c%do%d", c, i), false)
+				}
+			}
+		}
+		return out
+	}
+	var pre [][]outcome
+	if !first && t.Coin() {
+		// (only half of these cases: taking the reference first also warms every process-wide cache,
+		// and the cold start under concurrency is worth as many cases)
+		pre = isolated()
+		inc("reach:isolation_reference_also_taken_before_the_history")
 	}
 	for c := 0; c < W; c++ {
 		c := c
@@ -598,26 +664,10 @@ func (w world) RunCase(t *tape.Tape, st *super.Stats) *super.Violation {
 	}
 
 	// ---- oracle 1: isolation (fresh compile, fresh tree copy, single goroutine)
-	tree2 := faulttree.Generate(tape.Replay(treeSeg), "T")
+	post := isolated()
 	for c, p := range progs {
-		var ownExpr *op
 		for i, o := range p {
-			var want outcome
-			switch o.kind {
-			case 0:
-				oc := o
-				ownExpr = &oc
-				_, want = compileOp(o)
-			case 1:
-				m, _ := compileOp(op{gram: 0, expr: sharedExpr[o.shared]})
-				want = runOp(m, tree2, o, fmt.Sprintf("c%do%d", c, i), false)
-			case 2:
-				var m *xpath.Machine
-				if ownExpr != nil {
-					m, _ = compileOp(*ownExpr)
-				}
-				want = runOp(m, tree2, o, fmt.Sprintf("c%do%d", c, i), false)
-			}
+			want := post[c][i]
 			inc("operations_checked_against_isolation")
 			got := results[c][i]
 			for _, m := range got.inj {
@@ -626,17 +676,26 @@ func (w world) RunCase(t *tape.Tape, st *super.Stats) *super.Violation {
 			if o.kind == 0 && strings.Contains(got.text, "SIMFAULT-mapFn") {
 				inc("fault:mapFn-error")
 			}
+			site := "run"
+			if o.kind == 0 {
+				site = "compile:" + grammars[o.gram].name
+			}
 			if got.String() != want.String() {
 				what := "result"
 				if got.text == want.text {
 					what = "request-trace"
 				}
-				site := "run"
-				if o.kind == 0 {
-					site = "compile:" + grammars[o.gram].name
-				}
 				return &super.Violation{Class: "divergence", Sig: "divergence|" + what + "|" + site,
 					Detail: fmt.Sprintf("client %d operation %d differs from the same operation in isolation\n--- concurrent/history run:\n%s\n--- isolated run:\n%s\n%s", c, i, clip(got.String(), 1500), clip(want.String(), 1500), desc())}
+			}
+			// the isolated operation itself must not depend on what the process did before: the same
+			// fresh compile + single-goroutine run gave `pre` before any client existed
+			if pre != nil && pre[c][i].String() != want.String() {
+				inc("operations_checked_before_and_after_history")
+				return &super.Violation{Class: "divergence", Sig: "divergence|history|" + site,
+					Detail: fmt.Sprintf("client %d operation %d, done alone on a fresh machine and a fresh tree, gives a different result after the case's history than before it (state outside the machine and the context is carried between runs)\n--- before:\n%s\n--- after:\n%s\n%s", c, i, clip(pre[c][i].String(), 1500), clip(want.String(), 1500), desc())}
+			} else if pre != nil {
+				inc("operations_checked_before_and_after_history")
 			}
 		}
 	}
